@@ -774,6 +774,10 @@ class World(object):
                                                                "requested", "scheduled", "delayed"):
                 # (the retry condition is only evaluated while the workflow is active)
                 L.runtime_errors.append((x.xid, "retry"))
+        if x.items is not None:
+            ra_i = L.retry_allowed(x, obs, result)
+            if ra_i is not None and ra_i[0] is True and wfb not in ("running", "resuming", "pausing", "canceling"):
+                self.retry_cut = True
         L.on_completed(x, obs, result, wfb)
         self.last_done = x
         if x.items is not None and nctx_before is not None and x.items.get("n"):
